@@ -36,6 +36,41 @@ CLAIMED = {
          'Trusted: CPython ast; name-based call resolution (unresolved callees fail closed); the recognised idioms listed in DESIGN-tables T6. Known findings F9, F12a, F12b are genuine defects recorded in known_findings.json.',
          'DESIGN.md §4 C17'),
 }
+
+AST_NOTE = "Trusted: CPython ast; name-based resolution of imports and calls (first-class callables are unresolved callees and fail closed where a rule quantifies over every caller); the recognised idioms of DESIGN-tables T6; the reasoned tables held in the rule module (one line of reason per entry). Necessary conditions only: behaviour over all histories / schedules is constrained, not proved."
+CLAIMED.update({
+ 'C05': ('visitor return-shape analysis + mutation whitelist + must-dataflow typestate (constructed -> located) + abstract interpretation of visit_AnnAssign over the grammar of target kinds + path enumeration of the decorator-placement dispatch',
+         'The import-hook transformer only adds: every visit_* returns the visited node once plus fresh nodes, original nodes are only mutated by decorator insertion and the star-import slice, generated statements bind reserved names; all definition kinds are visited and recursed; every constructed node is located before it escapes; the star import goes after the docstring/__future__ prefix; annotated assignments get a check for every target kind (exhaustive 3x2x2x2); hook-time decoration failures are warnings; decorator placement is total and inserts exactly once on every path.',
+         AST_NOTE + ' Known findings F4, F16.', 'DESIGN.md §4 C05'),
+ 'C06': ('lock-region analysis over a resolved call graph + structural check of the lookup fold + may-dataflow (store before raise) with path enumeration of sibling callees + interprocedural write-set vs restore-set + value-provenance of the restore condition modulo the normaliser',
+         'Registry and path-hook state are only touched under claw_lock (lexically or in every caller); blacklist dominates whitelist and the deepest registered prefix wins; no registry store precedes a conflict raise on any path; beartyping() restores every field it (transitively) writes and compares with the value it stored; path-hook add/remove are idempotent and paired with cache invalidation.',
+         AST_NOTE + ' Known findings F5, F6, F7.', 'DESIGN.md §4 C06'),
+ 'C11': ('raise-site typing over the resolved class hierarchy (327 sites) + exception_cls default/argument flow + sibling check of make_func routes + family layering + guard dominance of first-hash sites + wrapper try-body facts',
+         'Every raise in the package is a BeartypeException subclass, a re-raise, a forwarded exception_cls parameter or one of 14 reviewed protocol-mandated builtin raises; exception_cls defaults and arguments are beartype classes; both routes into make_func pass a public class; each sub-package raises only its own family; the placeholder re-raise keeps the object; the first hash of raw user input in entry functions is guarded; generated wrappers never put the call-through in a try.',
+         AST_NOTE + ' Implicit exceptions from arbitrary hint objects are out of scope. Known findings F8, F9.', 'DESIGN.md §4 C11'),
+ 'C13': ('return-value identity analysis + loop-source and guard checks + no-op branch analysis + descriptor dispatch table and rebuild-shape checks + writer/reader name agreement',
+         'beartype_type returns its parameter on every path and the non-fatal route returns the object; only own members (cls.__dict__) and lexically nested classes are decorated; every no-op condition of beartype_func returns the callable itself; classmethod/staticmethod/property are rebuilt as what they were with all parts; wrappers carry the wrappee metadata and the already-beartyped marker is written and read under one name.',
+         AST_NOTE, 'DESIGN.md §4 C13'),
+ 'C14': ('discovery of module-level tables written at run time + clear-list membership + key-derivation classification (lossy / id) + key-completeness of the explicit memo tables + call-graph effect summaries (impure reads under exception-memoising decorators) + must-dataflow typestate of pooled objects + positional-call scan',
+         'Every run-time memo table is cleared by clear_caches or reasoned exempt; no memo key stands in lossily (repr / id without retention) for the memoised object; every parameter of the explicitly memoised computations is in the key or tracked by the cacheability flag that guards the store; functions whose exceptions are memoised do not depend on the environment; pooled scratch objects are released on every path and never escape; memoised functions are only called positionally.',
+         AST_NOTE + ' Known findings F3, F13.', 'DESIGN.md §4 C14'),
+ 'C15': ('lockset consistency per shared table + critical-section shape of singleton creation + pooled-object typestate + lock-order graph from with-nesting and callee lock summaries (cycle detection) + foreign-global patch scan',
+         'State accessed under a lock anywhere is accessed under it everywhere; lock-free tables only see atomic operations or reviewed benign check-then-act; singleton lookup/construct/store share one critical section; pooled objects follow acquired->released->dead; the lock order graph is acyclic; no process-global of a foreign module is patched from concurrently callable code.',
+         AST_NOTE + ' "For all interleavings" is only constrained through these lock-set conditions; single dict operations are assumed atomic under the GIL. Known finding F10.', 'DESIGN.md §4 C15'),
+ 'C16': ('foreign-global patch scan + who-reads analysis of configuration options in the transformer vs inputs of the cache-path marker + patch/restore pairing shape + marker composition check',
+         'The cache-path patch is restored in finally on every exit and un-hooked paths run outside it; the marker is non-empty, version-bound and appended to the interpreter tag; every option that changes the transformed code must be an input of the marker; the patch itself is a process-global monkey-patch.',
+         AST_NOTE + ' CPython\'s source-staleness check for .pyc files is trusted. Known findings F10, F11.', 'DESIGN.md §4 C16'),
+ 'C18': ('reducer-order check + provenance of every child handed to the generator / explanation path + call-graph reachability of reduce_hint + who-may-read of the tower and violation options + folded expansion table',
+         'User overrides are consulted first on every reduction iteration; every child hint comes from a sanifying producer that reaches reduce_hint; is_pep484_tower is data folded into hint_overrides under beartype/_conf only (float->float|int, complex->complex|float|int); the violation options are read only by the reporting layer.',
+         AST_NOTE + ' Semantic equality with the hand-rewritten hint is not decided.', 'DESIGN.md §4 C18'),
+ 'C19': ('field-read analysis of the container protocol methods + contradiction rule on __eq__/__hash__ + short-circuit analysis of is_subhint + cache-call shape + sibling cross-check of subclass overrides',
+         'len/iter/index/bool/contains/args of TypeHint are views of one tuple; __eq__ and __hash__ must use one key; no hint may be unconditionally both least and greatest; TypeHint(h) goes through the locked cache keyed by h with an unhashable fallback; subclasses overriding the wrapped children keep them in step with args. Reflexivity / transitivity / soundness of is_subhint over all hints are NOT decided.',
+         AST_NOTE + ' Known findings F14a, F14b, F14c.', 'DESIGN.md §4 C19'),
+ 'C20': ('dependence analysis of infer_hint returns + sibling deviance among state-machine nodes + seen-set threading of recursive calls + factory/sign table agreement',
+         'A result that does not depend on the object must accept everything; protocol nodes of the inference state machine yield abstract factories; the recursion guard comes first and every recursive call passes the extended seen-set; every builtin factory has a supported sign. The round trip for all objects is NOT decided.',
+         AST_NOTE + ' Known findings F15a, F15b.', 'DESIGN.md §4 C20'),
+})
+
 NOT_YET = {}
 NOT_APPLICABLE = {
  'C07': 'what a string / postponed annotation denotes is the result of eval against scopes assembled at run time from module globals, class stacks and live frames, and "usable once defined" quantifies over later states of those namespaces; no sound static argument in reach bounds either (DESIGN.md §5). Nearby shape facts are decided under C11 and C14.',
